@@ -79,6 +79,7 @@ struct C08 : Property {
     p["seed"] = base;
     p["index"] = index;
     p["sched_salt"] = r.next() & 0xffffffff;
+    if (index % 4 == 3) return generate_tcp(r, p);
     int n_sess = r.chance(0.7) ? 1 : 2;
     json cfg = {{"nstart", r.range(1, 4)}, {"n_sess", n_sess}, {"max_rtx", r.range(1, 4)}, {"at_milli", 1000 + 250 * r.range(0, 8)}};
     json ops = json::array(), replies = json::array(), faults = json::array();
@@ -114,9 +115,234 @@ struct C08 : Property {
     p["faults"] = faults;
     return p;
   }
-  std::vector<std::string> shrink_keys() override { return {"faults", "replies", "ops"}; }
+  std::vector<std::string> shrink_keys() override { return {"faults", "replies", "ops", "write_cuts", "stalls"}; }
+
+  // ---- reliable-transport flavour: "anything submitted before the session is established is held ... if the session fails
+  // instead, each held Confirmable is reported by exactly one NACK". A TCP client session against a raw stream peer whose accept,
+  // CSM and close the plan decides; short writes and EAGAIN on the client's socket make libcoap hold messages mid-stream.
+  json generate_tcp(Rng &r, json p) {
+    json cfg = {{"proto", "tcp"},
+                {"connect_delay_us", r.chance(0.5) ? r.range(0, 3000) : r.range(3000, 2500000)},
+                {"connect_ok", !r.chance(0.12)},
+                {"csm", r.chance(0.75) ? "send" : "never"},
+                {"csm_delay_us", r.chance(0.6) ? r.range(0, 5000) : r.range(5000, 1500000)},
+                {"csm_timeout_ms", r.range(300, 2500)}};
+    // how the session fails, if it does: the peer closes (FIN) or resets after it has read `close_after_bytes` bytes or at a time
+    if (r.chance(0.45)) {
+      cfg["close"] = r.chance(0.5) ? "fin" : "rst";
+      if (r.chance(0.5)) cfg["close_after_bytes"] = r.range(0, 1500);
+      else cfg["close_at_ms"] = r.range(0, 4000);
+    }
+    json ops = json::array(), cuts = json::array();
+    int n = (int)r.range(1, 20);
+    if (r.chance(0.4)) n = (int)r.range(1, 6);
+    int64_t t = 0;
+    for (int i = 0; i < n; i++) {
+      if (!r.chance(0.65)) t += r.chance(0.6) ? r.range(1, 50) : r.range(50, 3000);
+      ops.push_back({{"t_ms", t}, {"sess", 0}, {"type", r.chance(0.75) ? "CON" : "NON"}, {"len", r.chance(0.5) ? r.range(0, 20) : r.range(20, 700)}});
+    }
+    if (r.chance(0.7)) {
+      int k = (int)r.range(1, 40);
+      for (int i = 0; i < k; i++) cuts.push_back(r.chance(0.35) ? 0 : r.chance(0.5) ? r.range(1, 8) : r.range(8, 400));
+    }
+    // windows in which the client's socket takes no bytes at all (peer's receive window closed): messages pile up in libcoap
+    json stalls = json::array();
+    if (r.chance(0.6)) {
+      int k = (int)r.range(1, 3);
+      for (int i = 0; i < k; i++) stalls.push_back({{"from_ms", r.range(0, 3500)}, {"dur_ms", r.chance(0.5) ? r.range(1, 300) : r.range(300, 5000)}});
+    }
+    p["config"] = cfg;
+    p["ops"] = ops;
+    p["write_cuts"] = cuts;
+    p["stalls"] = stalls;
+    p["faults"] = json::array();
+    p["replies"] = json::array();
+    return p;
+  }
+
+  void execute_tcp(const json &plan, RunResult &res, bool verbose) {
+    C08World cw;
+    g = &cw;
+    cw.res = &res;
+    World &w = cw.w;
+    w.begin(plan.value("sched_salt", 1ull), &res, verbose, false);
+    w.max_sim_ns = 600ull * 1000000000ull;
+    R3Monitor r3(w, res);     // not attached: no datagrams in this world; the NACK callback reports to it harmlessly
+    cw.r3 = &r3;
+    const json &cfg = plan["config"];
+    w.add_node(nullptr);
+    w.add_node(nullptr);
+    cw.ctx = cx::new_context(w, 0);
+    coap_register_nack_handler(cw.ctx, nack_cb);
+    coap_register_response_handler(cw.ctx, resp_cb);
+    {
+      World::AsNode as(0);
+      coap_context_set_csm_timeout_ms(cw.ctx, (unsigned)cfg.value("csm_timeout_ms", 1000));
+    }
+    bool connect_ok = cfg.value("connect_ok", true);
+    int64_t connect_delay = cfg.value("connect_delay_us", (int64_t)1000);
+    simk::K().hooks.on_connect = [&w, connect_ok, connect_delay](int fd, simk::Addr) {
+      w.after_us(connect_delay, [fd, connect_ok]() { simk::complete_connect(fd, connect_ok); });
+    };
+    if (!connect_ok) w.count("fault.connect_refused");
+    int lfd = simk::raw_listen(1, World::node_addr(1, 5683));
+    int sfd = -1;
+    bool csm_sent = false, peer_closed = false;
+    uint64_t t_accept = 0;
+    Bytes tx;                 // everything the client wrote on the stream (seen at the write, whether or not the peer still reads)
+    size_t consumed = 0;
+    std::vector<int> wire_order;      // submission indices in the order their complete messages appeared on the stream
+    bool session_failed = false;
+    std::string close_kind = cfg.value("close", "");
+    int64_t close_after_bytes = cfg.value("close_after_bytes", (int64_t)-1), close_at_ms = cfg.value("close_at_ms", (int64_t)-1);
+    std::string csm_mode = cfg.value("csm", "send");
+    int64_t csm_delay = cfg.value("csm_delay_us", (int64_t)0);
+    if (csm_mode == "never") w.count("fault.csm_never");
+    uint64_t t0 = w.now();
+    w.stream_taps.push_back([&](int, int side, const Bytes &b) { if (side == 0) tx.insert(tx.end(), b.begin(), b.end()); });
+    auto do_close = [&]() {
+      if (peer_closed || sfd < 0) return;
+      peer_closed = true;
+      w.count("fault.peer_" + close_kind);
+      if (close_kind == "rst") {
+        simk::Fd *f = simk::get(sfd);
+        if (f && f->st) { simk::Stream *st = f->st; w.after_us(w.base_latency_us, [st]() { simk::deliver_fin(st, 0, true); }); }
+      }
+      simk::raw_close(sfd);
+    };
+    w.pollers.push_back([&]() {
+      if (sfd < 0) {
+        sfd = simk::raw_accept(lfd);
+        if (sfd >= 0) {
+          t_accept = w.now();
+          if (csm_mode == "send")
+            w.after_us(csm_delay, [&]() {
+              if (peer_closed) return;
+              r1::Msg csm;
+              csm.code = 0xE1;
+              csm.opts.push_back({2, r1::encode_uint(8192)});
+              simk::raw_stream_write(sfd, r1::encode_tcp(csm));
+              csm_sent = true;
+            });
+        }
+      }
+      if (sfd >= 0 && !peer_closed) {
+        Bytes sink;
+        simk::raw_stream_read(sfd, sink);
+        if (!close_kind.empty()) {
+          if (close_after_bytes >= 0 && (int64_t)tx.size() >= close_after_bytes) do_close();
+          if (close_at_ms >= 0 && w.now() >= t0 + (uint64_t)close_at_ms * 1000000ull) do_close();
+        }
+      }
+      // parse what the client has written so far
+      while (consumed < tx.size()) {
+        r1::Msg m;
+        r1::Verdict v;
+        std::string why;
+        bool too_big = false;
+        size_t n = r1::take_tcp(tx.data() + consumed, tx.size() - consumed, m, v, &why, 1u << 20, &too_big);
+        if (!n) break;
+        consumed += n;
+        if (v == r1::REJECT) { res.violate("C08.tcp_stream_malformed", "malformed", "malformed message on the TCP stream: " + why); break; }
+        if ((m.code >> 5) == 7) continue;
+        int i = find_sub_by_token(m.token);
+        if (i < 0) { res.violate("C08.unknown_message", "unknown_message_tcp", "client transmitted a message the application never submitted: " + m.str()); continue; }
+        Sub &s = cw.subs[(size_t)i];
+        s.first_tx_count++;
+        w.log("WIRE submission #%d complete on the stream", i);
+        if (s.first_tx_count > 1) res.violate("C08.tcp_transmitted_twice", "transmitted_twice", strfmt("submission %d appears %d times on the stream", i, s.first_tx_count));
+        if (s.nacks) res.violate("C08.tx_after_nack", "tx_after_nack_tcp", strfmt("submission %d transmitted after it had been NACKed", i));
+        if (!wire_order.empty() && wire_order.back() > i)
+          res.violate("C08.order", "order_tcp", strfmt("submission %d transmitted after later submission %d", i, wire_order.back()));
+        wire_order.push_back(i);
+        if (w.now() > s.t_submit) w.count("probe.tcp_was_held");
+      }
+    });
+    if (close_at_ms >= 0 && !close_kind.empty()) w.at_ns(t0 + (uint64_t)close_at_ms * 1000000ull, []() {}, -1);   // wake the pollers at that instant
+    coap_session_t *ss = cx::new_client(w, 0, cw.ctx, World::node_addr(1, 5683), COAP_PROTO_TCP);
+    if (!ss) { res.violate("M-live.abort", "no_session", "coap_new_client_session failed for TCP"); w.end(); g = nullptr; return; }
+    cw.sess.push_back(ss);
+    cw.inflight.emplace_back();
+    cw.last_release.push_back("none");
+    {
+      std::deque<size_t> q;
+      for (auto &c : plan.value("write_cuts", json::array())) q.push_back(c.get<size_t>());
+      if (!q.empty()) w.write_cuts[{1, 0}] = q;    // first stream of the run, client side
+      for (auto &st : plan.value("stalls", json::array())) {
+        uint64_t from = t0 + (uint64_t)st.value("from_ms", 0) * 1000000ull;
+        w.stall_writes(1, 0, from, from + (uint64_t)st.value("dur_ms", 1) * 1000000ull);
+      }
+    }
+    static auto ev_cb = [](coap_session_t *, const coap_event_t ev) -> int {
+      if (!g) return 0;
+      g->w.log("EVENT 0x%x", (unsigned)ev);
+      if (ev == COAP_EVENT_TCP_FAILED || ev == COAP_EVENT_TCP_CLOSED || ev == COAP_EVENT_SESSION_FAILED || ev == COAP_EVENT_SESSION_CLOSED) g->w.count("probe.tcp_session_failed_event");
+      if (ev == COAP_EVENT_SESSION_CONNECTED) g->w.count("probe.tcp_session_connected");
+      return 0;
+    };
+    coap_register_event_handler(cw.ctx, ev_cb);
+    for (auto &op : plan["ops"]) {
+      Sub s;
+      s.con = op.value("type", "CON") == "CON";
+      size_t i = cw.subs.size();
+      s.token = {0xC0, 0x08, 0x7c, (uint8_t)i, (uint8_t)(0x30 + i)};
+      cw.subs.push_back(s);
+    }
+    for (size_t i = 0; i < cw.subs.size(); i++) {
+      int64_t t_ms = plan["ops"][i].value("t_ms", (int64_t)0);
+      size_t len = (size_t)plan["ops"][i].value("len", 0);
+      w.at_ns(w.now() + (uint64_t)t_ms * 1000000ull, [&cw, &w, i, len, ss]() {
+        Sub &s = cw.subs[i];
+        coap_pdu_t *p = coap_pdu_init(s.con ? COAP_MESSAGE_CON : COAP_MESSAGE_NON, COAP_REQUEST_CODE_POST, coap_new_message_id(ss), 1024);
+        if (!p) { s.send_failed = true; return; }
+        coap_add_token(p, s.token.size(), s.token.data());
+        coap_add_option(p, COAP_OPTION_URI_PATH, 1, (const uint8_t *)"x");
+        Bytes body(len, (uint8_t)(0x41 + i));
+        if (len) coap_add_data(p, len, body.data());
+        s.submitted = true;
+        s.t_submit = w.now();
+        w.log("SUBMIT #%zu %s len=%zu state=%d", i, s.con ? "CON" : "NON", len, (int)coap_session_get_state(ss));
+        coap_mid_t mid = coap_send(ss, p);
+        w.log("SUBMIT #%zu returned mid=%d", i, (int)mid);
+        if (mid == COAP_INVALID_MID) { s.send_failed = true; w.count("probe.tcp_send_refused"); }
+      }, 0);
+    }
+    w.run();
+    session_failed = coap_session_get_state(ss) != COAP_SESSION_STATE_ESTABLISHED;
+    // A Confirmable that is still held when the session has failed may be reported as late as the release of the session
+    // (the reading C19's statement spells out); the ledger is therefore closed after the application has released the session.
+    std::vector<int> nacks_before_release;
+    for (auto &s : cw.subs) nacks_before_release.push_back(s.nacks);
+    {
+      World::AsNode as(0);
+      coap_session_release(ss);
+      coap_free_context(cw.ctx);
+    }
+    if (w.aborted) res.violate("M-live.abort", w.abort_why, "run did not quiesce: " + w.abort_why);
+    else {
+      for (size_t i = 0; i < cw.subs.size(); i++) {
+        Sub &s = cw.subs[i];
+        if (!s.submitted || s.send_failed) continue;
+        const char *ty = s.con ? "CON" : "NON";
+        if (s.nacks > 1) res.violate("C08.double_nack", "double_nack_tcp", strfmt("submission %zu NACKed %d times", i, s.nacks));
+        if (s.first_tx_count && s.nacks) res.violate("C08.tcp_tx_and_nack", "tx_and_nack", strfmt("submission %zu (%s) was transmitted completely and also NACKed", i, ty));
+        if (!s.first_tx_count && !s.nacks) {
+          if (!session_failed) res.violate("C08.lost", "lost_tcp", strfmt("submission %zu (%s) accepted by coap_send() was never transmitted although the session is established", i, ty));
+          else if (s.con) res.violate("C08.lost", "lost_tcp_session_failed", strfmt("submission %zu (CON) accepted by coap_send() was neither transmitted nor NACKed, not even when the failed session was released", i));
+        }
+        if (s.nacks && !session_failed) res.violate("C08.tcp_nack_without_failure", "nack_without_failure", strfmt("submission %zu NACKed although the session never failed", i));
+        if (s.nacks) w.count("probe.tcp_held_nacked");
+        if (s.nacks && !nacks_before_release[i]) w.count("probe.tcp_nacked_only_at_release");
+      }
+    }
+    bool any = !plan.value("write_cuts", json::array()).empty() || !plan.value("stalls", json::array()).empty() || !close_kind.empty() || !connect_ok || csm_mode == "never";
+    res.nontrivial = any && (res.counters.count("probe.tcp_was_held") || res.counters.count("probe.tcp_held_nacked"));
+    w.end();
+    g = nullptr;
+  }
 
   void execute(const json &plan, RunResult &res, bool verbose) override {
+    if (plan["config"].value("proto", "udp") == "tcp") { execute_tcp(plan, res, verbose); return; }
     C08World cw;
     g = &cw;
     cw.res = &res;
